@@ -269,6 +269,7 @@ def run_case(case):
     signer_spec = case['signer']
     signer = make_signer(signer_spec, kind == 'I')
     name_in = name_repr(toks, case['rep'])
+    name_before = [bytes(c) if not isinstance(c, str) else c for c in name_in] if isinstance(name_in, list) else None
     exp_comps = [comp_wire(t) for t in toks]
     tag = f"{kind}|{sigtag(signer_spec)}"
 
@@ -304,6 +305,9 @@ def run_case(case):
             bad(f'encode-raises:{type(e).__name__}', f'make raised {type(e).__name__}: {e}')
             return 'encode-raises', viol, True, None
     wire = bytes(wire)
+    # (0) the caller's objects are inputs: a name list used for this packet is used for the next one as it was
+    if isinstance(name_in, list) and [bytes(c) if not isinstance(c, str) else c for c in name_in] != name_before:
+        bad('caller-name-modified', f'the name list handed to the encoder was changed in place: now {len(name_in)} elements, {len(name_before)} before')
     # (1) exactly one well-formed element, every declared length exact, shortest-form numbers, recursively
     try:
         top = ts.read_single(wire, minimal=True)
